@@ -17,6 +17,7 @@ import (
 	"github.com/mgtv-tech/redis-GunYu/pkg/log"
 	usync "github.com/mgtv-tech/redis-GunYu/pkg/sync"
 	"github.com/mgtv-tech/redis-GunYu/verifshim/mc"
+	"github.com/mgtv-tech/redis-GunYu/verifshim/vsel"
 )
 
 var verifLogOnce sync.Once
@@ -168,4 +169,108 @@ func blockedStacks(all string) string {
 		}
 	}
 	return strings.Join(keep, "\n\n")
+}
+
+// ---------------------------------------------------------------------------
+// Preemption points. Files rewritten with the `yield` transform call vsel.Yield after every
+// statement that makes another goroutine runnable. While armed, every such point is recorded as
+// "<file:line>#<k>" (k-th time that statement is reached in this execution). A point named in the
+// plan is a preemption: the goroutine is held back until every other goroutine has run until it
+// blocked, i.e. the goroutine it has just woken - and everything that follows from it - runs
+// first. settle() replaces synctest.Wait() while armed: it waits for quiescence, lets the oldest
+// held goroutine go on, and repeats. explorePreempt enumerates all plans up to a preemption bound:
+// first the execution without preemption, then one execution per point it reached, then (bound 2)
+// one per point reached after the first preemption, and so on. Naming points by statement and
+// occurrence instead of by global position keeps a plan meaningful when unrelated goroutines are
+// scheduled in a different order.
+type preemptCtl struct {
+	plan   map[string]bool
+	counts map[string]int
+	seen   []string
+	hit    []string
+	armed  bool
+	parked []chan struct{}
+}
+
+func installPreempt(plan []string) *preemptCtl {
+	p := &preemptCtl{plan: map[string]bool{}, counts: map[string]int{}}
+	for _, k := range plan {
+		p.plan[k] = true
+	}
+	vsel.SetYielder(func(site string) {
+		if !p.armed {
+			return
+		}
+		p.counts[site]++
+		key := fmt.Sprintf("%s#%d", site, p.counts[site])
+		p.seen = append(p.seen, key)
+		if p.plan[key] {
+			p.hit = append(p.hit, key)
+			c := make(chan struct{})
+			p.parked = append(p.parked, c)
+			<-c
+		}
+	})
+	return p
+}
+
+func (p *preemptCtl) settle() {
+	for {
+		synctest.Wait()
+		if len(p.parked) == 0 {
+			return
+		}
+		c := p.parked[0]
+		p.parked = p.parked[1:]
+		close(c)
+	}
+}
+
+func (p *preemptCtl) remove() {
+	vsel.SetYielder(nil)
+	for _, c := range p.parked {
+		close(c)
+	}
+	p.parked = nil
+}
+
+// explorePreempt runs exec for every preemption plan up to bound preemptions (breadth first).
+// exec returns the verdict, the points reached (in order) and the planned points that were reached.
+func explorePreempt(rep *mc.Reporter, budget *mc.Budget, bound int, report func(plan []string, res mc.Result), exec func(plan []string) (mc.Result, []string, []string)) {
+	queue := [][]string{nil}
+	for len(queue) > 0 {
+		if budget.Expired() {
+			rep.Capped("deadline reached inside a preemption exploration")
+			return
+		}
+		plan := queue[0]
+		queue = queue[1:]
+		res, seen, hit := exec(plan)
+		if res.Verdict == "violation" {
+			r2, _, _ := exec(plan)
+			if r2.Verdict != res.Verdict || r2.Sig != res.Sig {
+				res = mc.Result{Verdict: "machinery", Clause: fmt.Sprintf("violation not reproducible with the same preemption plan %v: %s vs %s/%s", plan, res.Sig, r2.Verdict, r2.Sig)}
+			}
+		}
+		if len(hit) < len(plan) {
+			rep.Count("preemption_plans_not_reached", 1)
+		}
+		report(plan, res)
+		if len(plan) >= bound || len(hit) < len(plan) {
+			continue
+		}
+		start := 0
+		if len(plan) > 0 {
+			last := plan[len(plan)-1]
+			for i, k := range seen {
+				if k == last {
+					start = i + 1
+				}
+			}
+		}
+		for _, k := range seen[start:] {
+			child := append(append([]string(nil), plan...), k)
+			queue = append(queue, child)
+		}
+	}
 }
